@@ -148,3 +148,47 @@ Definition states_related (fl : list nat) (symbols : list positive) (A B : table
 Definition table_closed (T : table) : bool :=
   andb (Nat.ltb (t_start T) (length (t_states T)))
        (forallb (fun r => forallb (fun ka => match snd ka with Shift s => Nat.ltb s (length (t_states T)) | Reduce _ => true end) r) (t_states T)).
+
+(* ---------- validation of the driver model against the real runtime ---------- *)
+(* Feed a sequence of token types (values are irrelevant to the automaton) and record the state stack
+   after every token, as ParserState.state_stack shows it; then feed $END. *)
+Inductive trace_end := TAccepted | TRejectedAtEnd | TRejectedAt (i : nat) | TBroken.
+
+Fixpoint trace_run (rules : list rule) (T : table) (end_sym : positive) (fuel : nat)
+         (stack : list nat) (types : list positive) (i : nat) (acc : list (list nat)) : list (list nat) * trace_end :=
+  match types with
+  | [] =>
+      match feed unit (fun _ _ => tt) rules T fuel stack (map (fun _ => tt) (tl stack)) end_sym tt true with
+      | Accepted _ _ => (rev acc, TAccepted)
+      | Rejected _ => (rev acc, TRejectedAtEnd)
+      | _ => (rev acc, TBroken)
+      end
+  | ty :: rest =>
+      match feed unit (fun _ _ => tt) rules T fuel stack (map (fun _ => tt) (tl stack)) ty tt false with
+      | Shifted _ stack' _ => trace_run rules T end_sym fuel stack' rest (S i) (rev stack' :: acc)
+      | Rejected _ => (rev acc, TRejectedAt i)
+      | _ => (rev acc, TBroken)
+      end
+  end.
+
+Definition trace_end_eqb (a b : trace_end) : bool :=
+  match a, b with
+  | TAccepted, TAccepted | TRejectedAtEnd, TRejectedAtEnd | TBroken, TBroken => true
+  | TRejectedAt i, TRejectedAt j => Nat.eqb i j
+  | _, _ => false
+  end.
+
+Fixpoint stacks_eqb (a b : list (list nat)) : bool :=
+  match a, b with
+  | [], [] => true
+  | x :: a', y :: b' => andb (if list_eq_dec Nat.eq_dec x y then true else false) (stacks_eqb a' b')
+  | _, _ => false
+  end.
+
+(* a case: the token types fed, the state stacks the real ParserState showed after each accepted token
+   (bottom first), and how it ended *)
+Definition trace_ok (rules : list rule) (T : table) (end_sym : positive) (fuel : nat)
+           (c : list positive * list (list nat) * trace_end) : bool :=
+  let '(types, stacks, fin) := c in
+  let '(s, e) := trace_run rules T end_sym fuel [t_start T] types 0 [] in
+  andb (stacks_eqb s stacks) (trace_end_eqb e fin).
